@@ -187,6 +187,8 @@ func (h *Handler) HandleOpenFile(ctx *Context, path string) (fs.FileInfo, error)
 	fi, err := f.Stat()
 	if err != nil {
 		log.WarnContext(ctx, "Stat failed", logutil.ErrorAttr(err))
+		h.HandleCloseFile(ctx) // client is told that nothing was opened
+
 		return nil, err
 	}
 
